@@ -404,7 +404,7 @@ MUTANTS: List[Dict[str, Any]] = [
         "id": "report-depends-on-existing-file",
         "what": "an existing report in the output directory is kept instead of being regenerated",
         "checks": ["C17"],
-        "edits": [{"file": "rp2/plugin/report/rp2_full_report.py", "old": "        self._setup_text_data(country)\n\n        template_path: str = self._get_template_path(\"rp2_full_report\", country, generation_language)", "new": "        self._setup_text_data(country)\n        import os\n\n        if any(name.endswith(self.OUTPUT_FILE) for name in os.listdir(output_dir_path)):\n            return\n\n        template_path: str = self._get_template_path(\"rp2_full_report\", country, generation_language)"}],
+        "edits": [{"file": "rp2/plugin/report/rp2_full_report.py", "old": "        template_path: str = self._get_template_path(\"rp2_full_report\", country, generation_language)", "new": "        import os\n\n        if any(name.endswith(self.OUTPUT_FILE) for name in os.listdir(output_dir_path)):\n            return\n\n        template_path: str = self._get_template_path(\"rp2_full_report\", country, generation_language)"}],
     },
     {
         "id": "update-check-in-main",
